@@ -168,10 +168,16 @@ def norm_batch(ab: Any) -> dict[str, Any]:
             if ks.startswith("vgi_rpc."):
                 continue
             meta[ks] = v.decode("utf-8", "replace") if isinstance(v, bytes) else v
+    try:
+        data: Any = fast_norm(b.to_pydict())
+    except (SystemError, ValueError, UnicodeDecodeError, OverflowError, MemoryError, pa.ArrowException) as e:
+        # the batch's buffers do not hold what its schema says (e.g. a region overwritten while the batch still points
+        # into it): it cannot be read at all — a difference from inline delivery, not a harness problem
+        data = {"unreadable": type(e).__name__}
     return {
         "cols": [[f.name, _REV.get(str(f.type), str(f.type))] for f in b.schema],
         "n": b.num_rows,
-        "data": fast_norm(b.to_pydict()),
+        "data": data,
         "meta": meta,
     }
 
